@@ -389,3 +389,65 @@ Proof. exact threshold_viol_nil. Qed.
 
 Theorem C01_nonvacuous_cluster : valid4 ex_Xc ex_XSc ex_Pc ex_Sc = [] /\ is_cluster_tour (xt_of ex_XSc 0) = true.
 Proof. exact (conj (proj1 ex_cluster) (proj2 (proj2 (proj2 (proj2 ex_cluster))))). Qed.
+
+(* ---------------------------------------------------------------------------------------------------------------------------
+   ROUND FIVE of the end-to-end checker (Spec/ValidY.v): RECHARGE STATIONS and SHARED RELOAD RESOURCES.  Nothing above changes:
+   the extra problem data live in `ValidY.yproblem` next to the unchanged records, and a recharge activity (document kind 14) is
+   shown to the functions above as the demand-free service activity of a pseudo job whose single task offers the stations of
+   the tour's shift as its places - so its station's time windows, the two legs that reach and leave it (reachability), the tour
+   size and every other rule are judged by the very functions of the earlier rounds (`feasible5`). *)
+From VRP Require Import Spec.ValidY Proofs.ValidYP.
+
+(* RECHARGE DISTANCE (vehicles.md: "max distance limit before recharge should happen"; model.rs: "Maximum traveled distance before
+   recharge station has to be visited").  items = per activity behind the departure (is it a recharge?, distance of the leg that
+   reaches it).  Statement: any stretch of the tour that begins at the departure or directly behind a recharge and passes no
+   recharge on the way (it may end AT one, or anywhere) sums up to at most maxDistance.  The checker (a counter that is reset behind
+   every recharge) says yes exactly then *)
+Theorem C01_recharge_distance_checker_sound_complete : forall m items, seg_ok m 0 items = true <-> RechargeOk m items.
+Proof. exact seg_ok_iff. Qed.
+
+(* ... lifted to documents (classic routing data: the matrix distances between consecutive activities of the reported order) *)
+Theorem C01_recharge_distance_viols_sound_complete : forall Y P S,
+  recharge_dist_viols Y None P S = [] <->
+  forall t i rc, In t (sl_tours S) -> recharge_of Y t = Some (i, rc) -> RechargeOk (rc_max rc) (tour_items (pdist P) t).
+Proof. exact recharge_dist_viols_nil. Qed.
+
+(* the task-order rule on such a document: the order values of the JOB activities (recharge activities left out) never decrease *)
+Theorem C01_recharge_task_order_sound_complete : forall Y P' S',
+  order_viols_y Y P' S' = [] <->
+  forall n t r, nth_error (sl_tours S') n = Some t -> rebuild (order_problem P') t = Some r -> Sorted (order_seq_y Y r).
+Proof. exact order_viols_y_nil. Qed.
+
+(* conservativity: for a problem without recharges what runs (`feasible5`) IS what ran before - with classic routing data
+   (R = None) Valid.feasible_viols ++ Valid.xfeasible_viols, otherwise the functions of Spec/ValidTD.v *)
+Theorem C01_no_recharges_is_feasible_viols : forall R P S, feasible5 Y0 R P S = feasible_viols_x R P S ++ xfeasible_viols P S.
+Proof. exact feasible5_Y0. Qed.
+
+(* SHARED RELOAD RESOURCES (resources.md: "put limit on amount of deliveries in total loaded to the multiple vehicles on specific
+   reload place"; capacity "has the same type as vehicle's capacity").  `resource_use Y P S res` = the static deliveries (incl.
+   the new good of a replacement) served between a reload stop that draws on `res` and the next reload stop / the end of its
+   tour, summed over ALL tours; statement: in every capacity dimension it stays within the resource's capacity.  The checker
+   lists exactly the (resource, dimension) pairs for which it does not *)
+Theorem C01_reload_resource_checker_sound_complete : forall Y P S, resource_viols Y P S = [] <-> ResourcesRespected Y P S.
+Proof. exact resource_viols_nil. Qed.
+
+(* non-vacuity: a tour that has driven EXACTLY maxDistance when it reaches its recharge station is accepted by the whole
+   round-five checker; with the limit one unit lower the verdict is exactly [FRechargeDistance 0]; the declarative statements say
+   the same.  A resource that is exactly exhausted is respected, one unit less is exactly [(resource 1, dimension 0)] *)
+Theorem C01_nonvacuous_recharge :
+  all5 (ex_Yrc 30) ex_Prc ex_Src = [] /\ all5 (ex_Yrc 29) ex_Prc ex_Src = [FRechargeDistance 0]
+  /\ RechargeOk 30 (tour_items (pdist ex_Prc) (hd ex_tour (sl_tours ex_Src)))
+  /\ ~ RechargeOk 29 (tour_items (pdist ex_Prc) (hd ex_tour (sl_tours ex_Src))).
+Proof.
+  split; [exact (proj1 ex_recharge)|]. split; [exact (proj1 (proj2 ex_recharge))|].
+  exact (proj2 ex_recharge_declarative).
+Qed.
+
+Theorem C01_nonvacuous_reload_resource :
+  valid_b ex_Prs ex_Srs = [] /\ resource_use (ex_Yrs 1) ex_Prs ex_Srs 1 = 1
+  /\ resource_viols (ex_Yrs 1) ex_Prs ex_Srs = [] /\ resource_viols (ex_Yrs 0) ex_Prs ex_Srs = [(1, 0)]
+  /\ ResourcesRespected (ex_Yrs 1) ex_Prs ex_Srs /\ ~ ResourcesRespected (ex_Yrs 0) ex_Prs ex_Srs.
+Proof.
+  destruct ex_resource as [H1 [H2 [H3 [H4 _]]]]. split; [exact H1|]. split; [exact H2|]. split; [exact H3|]. split; [exact H4|].
+  exact ex_resource_declarative.
+Qed.
